@@ -134,7 +134,7 @@ func (r *runner) run(stream string, d *dg.Design, ms *MetaSpec, strict bool) {
 			r.res.Count("endpoints")
 			for _, rt := range e.Routes {
 				for _, p := range rt.Paths {
-					if b := md.APIBase; !rt.Abs && b != "" && b != "/" && p != b && !strings.HasPrefix(p, strings.TrimSuffix(b, "/")+"/") {
+					if b := md.APIBase; !rt.Abs && !s.Abs && b != "" && b != "/" && p != b && !strings.HasPrefix(p, strings.TrimSuffix(b, "/")+"/") {
 						r.res.Count("hypothesis_rooted_violated")
 					}
 				}
